@@ -26,6 +26,7 @@ func Record(args []string) error {
 	seed := fs.Int64("seed", 1, "seed")
 	n := fs.Int("n", 100, "number of pairs")
 	out := fs.String("out", "", "output scenario file")
+	huge := fs.Int("huge", 0, "the last pair is a generated pair of tables of more than this many blocks (0: none)")
 	if err := fs.Parse(args); err != nil {
 		return err
 	}
@@ -42,6 +43,9 @@ func Record(args []string) error {
 	for i := 0; i < *n; i++ {
 		rng := rand.New(rand.NewSource(*seed*1000003 + int64(i)))
 		sc := genPair(rng, i)
+		if *huge > 0 && i == *n-1 {
+			sc = &RecScenario{Rec: 1, ID: i, Shape: "huge", KC: 1, Cols: 2, T1: [][]string{}, T2: [][]string{}, Huge: *huge}
+		}
 		b, err := json.Marshal(sc)
 		if err != nil {
 			return err
